@@ -13,8 +13,9 @@ import (
 )
 
 type Finding struct {
-	Property   string `json:"property"`
-	Function   string `json:"function"`
+	Property   string   `json:"property"`
+	Properties []string `json:"properties,omitempty"` // further properties whose checks meet the same finding
+	Function   string   `json:"function"`
 	Obligation string `json:"obligation"`
 	Predicate  string `json:"predicate"`
 	Witness    string `json:"witness_test"`
@@ -28,6 +29,10 @@ type Fixed struct {
 type FindingsFile struct {
 	Findings []Finding `json:"findings"`
 	Fixed    []Fixed   `json:"fixed"`
+}
+
+func (f Finding) forProp(p string) bool {
+	return f.Property == p || hasTag(f.Properties, p)
 }
 
 func loadFindings(path string) (*FindingsFile, error) {
@@ -164,7 +169,8 @@ func RunCheck(opts CheckOpts) int {
 	}
 	var findings []Finding
 	for _, f := range ff.Findings {
-		if f.Property == opts.Prop || opts.Prop == "" {
+		if f.forProp(opts.Prop) || opts.Prop == "" {
+			f.Property = opts.Prop
 			findings = append(findings, f)
 		}
 	}
